@@ -31,6 +31,11 @@ THEOREMS = [
     "MCHap.C11.decode_encode",
     "MCHap.C11.increment_spec",
     "MCHap.C11.enumeration_is_vcf_order",
+    "MCHap.C11.combTable_exact",
+    "MCHap.C11.combCached_exact",
+    "MCHap.C11.cwrTable_exact",
+    "MCHap.C11.cwrCached_exact",
+    "MCHap.C11.combTable_small",
 ]
 RULE = ("cases: (n,k) pairs for comb / comb_with_replacement inside, across and beyond the 100x12 tables "
         "(incl. k > n/2 and results just below 2^53); random ascending genotypes (ploidy 1..40, up to 10^6 alleles) "
